@@ -39,7 +39,9 @@ def uw1(P, C):
         if f.k(i) == "DeclStmt":
             for d in f.nodes[i]["decls"]:
                 if d.get("dk") == "Var" and d.get("init", -1) >= 0 and not any(i in set(f.walk(L)) for L in loops):
-                    accs.append((d["name"], d.get("ctype"), f.nodes[d["init"]].get("cv"), f.render(d["init"])))
+                    iv = f.nodes[f.strip(d["init"])]
+                    one = iv.get("cv", iv.get("v"))
+                    accs.append((d["name"], d.get("ctype"), 1 if one in (1, 1.0, "1", "1.0", "1.") else one, f.render(d["init"])))
     small_guard = False
     for e in early:
         rc = core.rel_canon(f, f.nodes[e]["cond"], vg.atomizer(f, ()))
@@ -53,9 +55,13 @@ def uw1(P, C):
     C.ob("UW-1", "factorial", "loop-shape", ok_shape, f.loc(loops[0]) if loops else f.where(),
          det + " (accepted: descending from n while > 1, or ascending from 2 while <= n)")
     rt = f.d["rtype"]
-    wide = accs and accs[0][1] in ("unsigned int", "unsigned long", "unsigned long long", "long", "long long")
-    C.ob("UW-1", "factorial", "result-width", rt in ("unsigned int", "unsigned long", "uint64_t", "unsigned long long") and bool(wide), f.where(),
-         "result type %s / accumulator %s hold 10! = 3628800 (orders <= 5, kernels of <= 6 knots); 13! would overflow 32 bits" % (rt, accs[0][1] if accs else None))
+    # 'for every spline order >= 0': a table can be convolved again, and the order rises each time — 13! does not fit 32 bits, 21! not 64
+    # (D58: order 8 with a 6-knot kernel). Only a floating-point product has no such cliff.
+    wide = accs and accs[0][1] in ("double", "long double")
+    C.ob("UW-1", "factorial", "result-width", rt in ("double", "long double") and bool(wide), f.where(),
+         ("result type %s / accumulator %s: floating point, no overflow for any order a table can reach" % (rt, accs[0][1] if accs else None)) if rt in ("double", "long double") and wide else
+         "result type %s / accumulator %s: an integer factorial wraps from 13! (32 bits) or 21! (64 bits) on, i.e. from order + kernel knots - 1 >= 13 — the "
+         "normalisation of the convolution is then wrong for every value" % (rt, accs[0][1] if accs else None))
     # call sites in convolve
     cv = [g for g in P.fns("convolve") if g.cls == ts.CLS and g.unit == "driver"][0]
     def by_def(a):
@@ -386,8 +392,20 @@ def uw5(P, C):
             t = t.replace("v%d" % n_, "{%s}" % (f.alpha(d)[0] if d is not None else "?"))
         return t.replace(" ", "")
     K, Q = "{(order[$0]+1)}", "{($2-1)}"
-    want = "((double)(factorial(%s)*factorial((%s-1)))/(double)factorial(((%s+%s)-1)))" % (Q, K, K, Q)
+    want = "((factorial(%s)*factorial((%s-1)))/factorial(((%s+%s)-1)))" % (Q, K, K, Q)
     got = by_def(ini) if ini is not None else None
+    # the product of the two factorials has to be formed in floating point as well (the casts are then redundant and may be written or not)
+    prod_fp = False
+    if ini is not None:
+        for x in f.walk(ini):
+            if f.k(x) == "BinaryOperator" and f.nodes[x].get("op") == "*" and all("factorial" in f.render(c) for c in f.nodes[x]["ch"]):
+                prod_fp = f.nodes[x].get("t") in ("double", "long double")
+    got_n = got.replace("(double)", "") if got else got
+    while got_n and "((factorial" in got_n and got_n != want and got_n.replace("((factorial(%s)*factorial((%s-1))))" % (Q, K), "(factorial(%s)*factorial((%s-1)))" % (Q, K)) != got_n:
+        got_n = got_n.replace("((factorial(%s)*factorial((%s-1))))" % (Q, K), "(factorial(%s)*factorial((%s-1)))" % (Q, K))
+    C.ob("UW-5", "convolve", "prefactor-in-floating-point", prod_fp, f.loc(ini) if ini is not None else f.where(),
+         "q!*(k-1)! is formed in floating point" if prod_fp else "the product q!*(k-1)! is formed in an integer type and wraps (q=5, k-1=11: 4.8e9 > 2^32) before it is converted")
+    got, want = got_n, want
     C.ob("UW-5", "convolve", "prefactor-value", got == want, f.loc(ini) if ini is not None else f.where(),
          "prefactor = %s" % (got if got != want else "q!(k-1)!/(k+q-1)! in floating point"))
     writes = []
@@ -587,3 +605,36 @@ def uw7(P, C):
             if ok3:
                 det3 = "duplicates removed with std::unique and the count re-assigned from its result"
     C.ob("UW-7", "convolve", "field-read-only-after-sort", ok3, f.where(), det3)
+
+
+def uw8(P, C):
+    """UW-8: the caller's kernel is not read once the table's storage has been released."""
+    C.rule("UW-8", "convolve reads the caller's kernel (conv_knots[..], or the pointer handed on to a callee) only before it starts releasing the "
+           "table's own arrays: the kernel is `n increasing numbers` and may be a slice of the table's own knot vector "
+           "(t.convolve(d, t.get_knots(d)+2, 3)); a read after the first deallocate is a read of freed storage", floor=1)
+    f = [g for g in P.fns("convolve") if g.cls == ts.CLS and g.unit == "driver"][0]
+    kid = f.params[1]["id"]
+    pos = f.node_positions()
+
+    def at(x):
+        while x >= 0 and x not in pos:
+            x = f.parent[x]
+        return pos.get(x)
+    rel = [i for i, cal in f.calls() if cal and cal["name"] in ("deallocate", "clear") and at(i)]
+    if not rel:
+        raise core.AnalysisBroken("UW-8: convolve no longer releases anything (deallocate/clear not found)")
+    reads = [x for x in f.walk() if f.k(x) == "DeclRefExpr" and f.nodes[x]["decl"].get("id") == kid and at(x)]
+    if not reads:
+        raise core.AnalysisBroken("UW-8: no use of the kernel parameter found")
+    late = []
+    for x in reads:
+        px = at(x)
+        for r in rel:
+            pr = at(r)
+            if (pr[0] == px[0] and pr[1] < px[1]) or (pr[0] != px[0] and px[0] in f.reachable_blocks_from_succs(pr[0])):
+                late.append((x, r))
+                break
+    C.ob("UW-8", "convolve", "kernel-read-before-release", not late, f.loc(late[0][0]) if late else f.where(),
+         "all %d uses of the kernel pointer precede the first release of table storage (%d release sites)" % (len(reads), len(rel)) if not late else
+         "%s at %s is evaluated after the table's arrays were released at %s: with a kernel that is a slice of the table's own knots this reads freed storage" %
+         (f.render(f.parent[late[0][0]])[:60], f.loc(late[0][0]), f.loc(late[0][1])))
